@@ -672,8 +672,9 @@ def stepOnce (cfg : Cfg) (urlOk : Bool → Bytes → Bool) (st : St) (data : Byt
       if reraise then
         .stop { st := { st with failed := true }, evs := pevs ++ [.payloadErr e], rest := [], err := some e }
       else
-        -- swallowed: exception set on the payload, parser dropped, rest of this read discarded
-        let st := { st with payload := none }
+        -- swallowed: exception set on the payload, parser dropped, rest of this read discarded; the stream cannot be
+        -- resynchronised, so anything that arrives later is refused (`_should_close`)
+        let st := { st with payload := none, shouldClose := true }
         let st := if st.pendingUpgrade then { st with upgraded := true, pendingUpgrade := false } else st
         .stop { st, evs := pevs ++ [.payloadErr e], rest := [], err := none }
 
